@@ -189,9 +189,9 @@ Section EndReq2.
         * inversion H; subst. congruence.
       + inversion H; subst. eapply K_same; [| |exact HK]; reflexivity.
     - cbn [exec] in H.
-      destruct (EX f (pparam g) (prog g) (with_self (receiver g st) st)) as [o1 st1] eqn:H1.
+      destruct (EX f (pparam g) (prog g) (with_self (receiver g st) (recv_known g (rsk (sid st))) st)) as [o1 st1] eqn:H1.
       inversion H; subst o st'.
-      assert (HKw : K (with_self (receiver g st) st)) by (eapply K_same; [| |exact HK]; reflexivity).
+      assert (HKw : K (with_self (receiver g st) (recv_known g (rsk (sid st))) st)) by (eapply K_same; [| |exact HK]; reflexivity).
       assert (Ho1 : o1 <> OutOfFuel) by (intros ->; congruence).
       pose proof (IH _ _ _ _ _ (pparam_safe g) (prog_safe g) HKw H1 Ho1) as HK1.
       eapply K_same; [| |exact HK1]; reflexivity.
